@@ -832,6 +832,17 @@ func factsC17() {
 		ic := idx(evs, 0, "call", `\.closeAllSessions\(`)
 		marks = il >= 0 && ia == il+1 && iu == ia+1 && ic > iu && evs[ia].depth == 0 && evs[ic].depth == 0
 	}
+	// CloseSession: does the locked part, where "no session left" is decided, retire the record in the same section?
+	closeRetires := false
+	if cs := fnOf(sv, "ActiveUser.CloseSession"); cs != nil && field != "" {
+		evs := events(cs)
+		il := idx(evs, 0, "call", `^u\.sessionsM\.Lock\(\)`)
+		ir := idx(evs, 0, "assign", `^remaining := len\(u\.sessions\)$`)
+		ia := idx(evs, ir+1, "assign", `^u\.`+field+` = u\.`+field+` \|\| remaining == 0$`)
+		iu := idx(evs, 0, "call", `^u\.sessionsM\.Unlock\(\)`)
+		closeRetires = il >= 0 && ir > il && ia > ir && iu > ia && evs[ia].depth == 0
+	}
+	boolFact(g, "closeSessionRetiresWhenEmpty", closeRetires, "CloseSession sets the retired flag, in the section that counts the remaining sessions, when none remains")
 	boolFact(g, "terminateRetiresFirst", marks, "TerminateActiveUser sets the flag under sessionsM before (or closeAllSessions sets it while) the sessions are closed")
 	guarded, closeFirst := false, false
 	if ta := fnOf(sv, "userPanel.TerminateActiveUser"); ta != nil {
